@@ -402,7 +402,7 @@ theorem C12_modules_plan (a : ModulesArgs) (p : ModulesPlan) (h : modulesCheck a
   all_goals
     cases h
     refine ⟨by simpa using h1, by simpa using h2, by simpa using h3, ⟨s, u, hs, hcol, hp, hcan, by rw [hcan]⟩,
-      by simpa using h4, by simpa using h6, by simpa using h5, ?_, rfl, rfl⟩
+      by simpa using h6, by simpa using h5, by simpa using h4, ?_, rfl, rfl⟩
     simp_all
 
 /-- each refusing precondition makes `Modules.add` raise `ValueError` and return the same mapping: empty variant,
@@ -1471,6 +1471,32 @@ theorem C12_empty_path_refused (s : PyVal) :
     rw [this] at heq
     cases heq
     rfl
+
+/-- **Every refused add raises ValueError or TypeError** (full; F42 repaired) — after ANY history of calls of a
+builder, whatever a further call raises is a `ValueError` (`TypeError` possible only for `ExtraFiles.add`'s checksums
+test in the model's argument types), and the manifest is unchanged.  On the real side the type tests that the model's
+typed arguments cannot express — `sigkey` neither `None` nor a string (now `TypeError`), a falsy non-string
+`modulemd_path` (now the `ValueError` of the emptiness loop, which runs before `.startswith`) — are exercised by the
+complete falsy stream of the check; `C12_scripts` pins the repaired statement shapes and their order
+(`sigkeyTyped`; `paramsLoop` before `absoluteMdPath`), so undoing the repair breaks it. -/
+theorem C12_errclass_full :
+    (∀ (h : List RpmsArgs) (a : RpmsArgs) (e : Err), (Rpms.add (runRpms empty h) a).2 = .error e →
+        (e = .valueError ∨ e = .typeError) ∧ (Rpms.add (runRpms empty h) a).1 = runRpms empty h)
+    ∧ (∀ (h : List ModulesArgs) (a : ModulesArgs) (e : Err), (Modules.add (runModules empty h) a).2 = .error e →
+        (e = .valueError ∨ e = .typeError) ∧ (Modules.add (runModules empty h) a).1 = runModules empty h)
+    ∧ (∀ (h : List ExtraArgs) (a : ExtraArgs) (e : Err), (ExtraFiles.add (runExtra empty h) a).2 = .error e →
+        (e = .valueError ∨ e = .typeError) ∧ (ExtraFiles.add (runExtra empty h) a).1 = runExtra empty h) := by
+  refine ⟨fun h a e he => ?_, fun h a e he => ?_, fun h a e he => C12_extra_error_class h a e he⟩
+  · exact ⟨Or.inl (C12_rpms_error_class h a e he).1, (C12_rpms_error_class h a e he).2⟩
+  · exact ⟨Or.inl (C12_modules_error_class h a e he).1, (C12_modules_error_class h a e he).2⟩
+
+/-- F42 (repaired): in `Modules.add` the emptiness loop over variant / koji_tag / modulemd_path precedes the first
+attribute access on `modulemd_path`, and `Rpms.add` tests the type of a signing key before lower-casing it.
+(Before the repair the lists read `… assign, absoluteMdPath, kojiTag, paramsLoop, …` and `… categoryArch, sigkeyLower, …`:
+`Modules().add(…, modulemd_path=None, …)` and `Rpms().add(…, sigkey=0, …)` raised AttributeError.) -/
+theorem C12_type_tests_first :
+    Gen.modules_add_script.idxOf BStep.paramsLoop < Gen.modules_add_script.idxOf BStep.absoluteMdPath
+    ∧ BStep.sigkeyTyped ∈ Gen.rpms_add_script ∧ BStep.sigkeyLower ∉ Gen.rpms_add_script := by decide
 
 /-- the statement lists the model interprets are the documented ones (obligation on the generated file; a refusal
 removed, added or reordered in the source breaks it — and changes the executable model at the same time) -/
